@@ -16,7 +16,7 @@ from typing import Any
 
 from ..common import Ctx
 from .. import pvlib, learncheck as lc
-from .c03 import canon_model, norm_blk
+from .c03 import canon_model, norm_blk, _same_language
 
 LEVEL = "proof"
 THEOREMS = [
@@ -320,4 +320,7 @@ def replay(data: dict[str, Any]) -> int:
             rc = 1
         if ("text" in rp) != ("text" in reps[0]):
             rc = 1
+    if rc == 0 and all("text" in rp for rp in reps) and not _same_language([rp["text"] for rp in reps]):
+        print("the diagram after updating the saved model has another language than the one-shot diagram")
+        rc = 1
     return rc
